@@ -298,10 +298,11 @@ theorem inv_step (s : St) (a : Act) (s' : St) (h : Inv s) (hs : step good s a = 
 theorem counters_ext (a b : Counters) (h1 : a.sys = b.sys) (h2 : a.vig = b.vig) : a = b := by
   cases a; cases b; simp at h1 h2; simp [h1, h2]
 
-theorem exec_paired (ts : List Tok) (hp : Paired ts = true) (c : Counters) (ds : List Deferred) :
-    execShape c ds ts = ds.foldl runDeferred c := by
+theorem exec_paired (fires : Fires) (ts : List Tok) (hp : Paired ts = true) (c : Counters) (ds : List Deferred) :
+    execShape fires c ds ts =
+      ds.foldl runDeferred { c with vig := c.vig - (if fires then (ts.count .autoDestroy : Int) else 0) } := by
   induction ts generalizing c ds with
-  | nil => rfl
+  | nil => simp [execShape]
   | cons t ts ih =>
     simp only [Paired, List.all_cons, Bool.and_eq_true] at hp
     have hts : Paired ts = true := hp.2
@@ -314,6 +315,13 @@ theorem exec_paired (ts : List Tok) (hp : Paired ts = true) (c : Counters) (ds :
     · simp only [execTok, List.foldl_cons, runDeferred]
       congr 1; apply counters_ext <;> simp <;> omega
     · simp only [execTok, List.foldl_cons, runDeferred]
+      first
+        | rfl
+        | (congr 1; first | rfl | (apply counters_ext <;> simp))
+    · simp only [execTok]
+      congr 1; apply counters_ext
+      · cases fires <;> simp
+      · cases fires <;> simp <;> omega
 
 theorem paired_take (ts : List Tok) (hp : Paired ts = true) (n : Nat) : Paired (ts.take n) = true := by
   simp only [Paired, List.all_eq_true] at hp ⊢
